@@ -64,6 +64,10 @@
   * `counter_transitions_match_source` — the entry transitions that move counters (`Tree::with`,
     `Tree::put`, all of `impl LocalTree`) are re-derived from the Rust source on every run
     (`tools/rs2lean.py`, `Gen/Tree.lean`, `Gen/Local.lean`) and proved equal to the model's.
+
+  * `huge_entry_transitions_match_source` — `impl HugeEntry` (the counters and the huge marker of
+    the lower allocator) is re-derived from the Rust source on every run (`tools/rs2lean.py`,
+    `Gen/Huge.lean`) and proved equal to the model's transitions (`Proofs/GenTree.lean`).
 -/
 import LLFreeV.Proofs.UpperInit
 import LLFreeV.Proofs.OwnLowerThreads
@@ -303,5 +307,16 @@ theorem counter_transitions_match_source (tr tf : Nat) (t : Tree) (l : LTree) (f
     GenTree.Sim (GenTree.ofROL (Gen.L.setStart tr l row)) (LTree.setStart tr l row) :=
   ⟨GenTree.with_eq tf free res cls (by omega), GenTree.put_eq tf t free policy dflt (by omega), GenTree.lwith_eq row free,
     GenTree.lnone_eq, GenTree.lget_eq tr l otree free hl, GenTree.lput_eq tr tf l tree free htf, GenTree.lsetStart_eq tr l row⟩
+
+/-- **The table-entry transitions of the model are those of the current source**: `impl HugeEntry`
+    (`new_huge`, `new_with`, `huge`, `free`, `dec`, `inc`) is regenerated from `core/src/lower.rs` on
+    every run (`Gen/Huge.lean`) and agrees with the hand-written model for every entry value and
+    amount (for `inc`: amounts up to the bitfield length, which is all the callers pass). -/
+theorem huge_entry_transitions_match_source (len e n : Nat) (hn : n ≤ len) :
+    Gen.H.newHuge = .ok HugeMarker ∧ Gen.H.newWith n = .ok (Huge.newWith n) ∧
+    Gen.H.huge e = .ok (Huge.isHuge e) ∧ Gen.H.free e = .ok (Huge.free e) ∧
+    GenTree.Sim (GenTree.ofRON (Gen.H.dec e n)) (Upd.ofOption (Huge.dec e n)) ∧
+    GenTree.Sim (GenTree.ofRON (Gen.H.inc len e n)) (Huge.inc len e n) :=
+  ⟨GenTree.hnewHuge_eq, GenTree.hnewWith_eq n, GenTree.hhuge_eq e, GenTree.hfree_eq e, GenTree.hdec_eq e n, GenTree.hinc_eq len e n hn⟩
 
 end LLFree.C04
